@@ -42,6 +42,119 @@ type tr struct {
 	lastAssign map[string]string
 	closures   []string // effects mode: names of closure units passed as call arguments
 	inGo       bool
+	fnLockSites []lockSite // Lock/RLock call sites of the current unit
+	assumeHeld  string     // lock key the current unit is documented to be called with
+}
+
+type lockSite struct {
+	key string
+	pos token.Pos
+}
+
+// fields documented as protected by a mutex of the same struct: an access must happen with that mutex held
+// (lock skeleton: a `need` is emitted in front of the access; the verified checker then rejects any path
+// that reaches it without the lock)
+var guardedFields = map[string]string{
+	"github.com/pion/turn/v5.Client.relayedConn":                            "mutex",
+	"github.com/pion/turn/v5.Client.tcpAllocation":                          "mutex",
+	"github.com/pion/turn/v5/internal/allocation.Allocation.permissions":     "permissionsLock",
+	"github.com/pion/turn/v5/internal/allocation.Allocation.channelBindings": "channelBindingsLock",
+	"github.com/pion/turn/v5/internal/allocation.Manager.allocations":        "lock",
+	"github.com/pion/turn/v5/internal/allocation.Manager.reservations":       "lock",
+	"github.com/pion/turn/v5/internal/client.TransactionMap.trMap":           "mutex",
+	"github.com/pion/turn/v5/internal/client.binding._refreshedAt":           "mutex",
+	"github.com/pion/turn/v5/internal/client.bindingManager.chanMap":         "mutex",
+	"github.com/pion/turn/v5/internal/client.bindingManager.addrMap":         "mutex",
+	"github.com/pion/turn/v5/internal/client.bindingManager.next":            "mutex",
+	"github.com/pion/turn/v5/internal/client.allocation._nonce":              "mutex",
+	"github.com/pion/turn/v5/internal/client.allocation._lifetime":           "mutex",
+	"github.com/pion/turn/v5/internal/client.PeriodicTimer.stopFunc":         "mutex",
+	"github.com/pion/turn/v5/internal/client.permissionMap.permMap":          "mutex",
+}
+
+// look-up / removal in the client's transaction table is serialised by Client.mutexTrMap (Insert is not:
+// the table has its own internal mutex and a fresh key cannot be found by anybody yet)
+var guardedCalls = map[string]string{
+	"github.com/pion/turn/v5|github.com/pion/turn/v5/internal/client.TransactionMap.Find":              "github.com/pion/turn/v5.Client.mutexTrMap",
+	"github.com/pion/turn/v5|github.com/pion/turn/v5/internal/client.TransactionMap.Delete":            "github.com/pion/turn/v5.Client.mutexTrMap",
+	"github.com/pion/turn/v5|github.com/pion/turn/v5/internal/client.TransactionMap.CloseAndDeleteAll": "github.com/pion/turn/v5.Client.mutexTrMap",
+}
+
+// helpers documented as "called with the lock held": inside them the lock counts as held, and every call
+// to them needs it
+var callerHolds = map[string]string{
+	"github.com/pion/turn/v5/internal/client.bindingManager.assignChannelNumber": "github.com/pion/turn/v5/internal/client.bindingManager.mutex",
+}
+
+func (t *tr) needFor(lockKey string, at token.Pos) string {
+	if t.assumeHeld == lockKey {
+		return ".skip"
+	}
+	// the variant (write / read lock) is the one of the closest preceding Lock/RLock call in this unit
+	key := lockKey
+	best := token.NoPos
+	for _, l := range t.fnLockSites {
+		if (l.key == lockKey || l.key == lockKey+"#R") && l.pos < at && l.pos > best {
+			best, key = l.pos, l.key
+		}
+	}
+	if _, ok := t.locks[key]; !ok {
+		t.locks[key] = len(t.locks)
+	}
+	return fmt.Sprintf("(.need %d)", t.locks[key])
+}
+
+// scanLocks: which mutexes does this body lock itself (closures excluded: they run at another time)
+func (t *tr) scanLocks(body *ast.BlockStmt) []lockSite {
+	var m []lockSite
+	ast.Inspect(body, func(n ast.Node) bool {
+		switch x := n.(type) {
+		case *ast.FuncLit:
+			return false
+		case *ast.CallExpr:
+			se, ok := x.Fun.(*ast.SelectorExpr)
+			if !ok {
+				return true
+			}
+			s := t.pkg.TypesInfo.Selections[se]
+			if s == nil {
+				return true
+			}
+			fn, isFn := s.Obj().(*types.Func)
+			if !isFn || fn.Pkg() == nil || fn.Pkg().Path() != "sync" {
+				return true
+			}
+			inner, ok := se.X.(*ast.SelectorExpr)
+			if !ok {
+				return true
+			}
+			key := types.ExprString(inner.X)
+			if s2 := t.pkg.TypesInfo.Selections[inner]; s2 != nil {
+				key = strings.TrimPrefix(s2.Recv().String()+"."+s2.Obj().Name(), "*")
+			}
+			switch fn.Name() {
+			case "Lock":
+				m = append(m, lockSite{key, x.Pos()})
+			case "RLock":
+				m = append(m, lockSite{key + "#R", x.Pos()})
+			}
+		}
+		return true
+	})
+	return m
+}
+
+// guardedAccess: `x.f` where f is a guarded field -> the lock key that must be held
+func (t *tr) guardedAccess(se *ast.SelectorExpr) (string, bool) {
+	s := t.pkg.TypesInfo.Selections[se]
+	if s == nil || s.Kind() != types.FieldVal {
+		return "", false
+	}
+	recv := strings.TrimPrefix(s.Recv().String(), "*")
+	if mu, ok := guardedFields[recv+"."+s.Obj().Name()]; ok {
+		return recv + "." + mu, true
+	}
+	return "", false
 }
 
 var interesting = map[string]bool{
@@ -185,9 +298,32 @@ func (t *tr) expr(e ast.Node) string {
 			}
 			t.funcUnit(name, x.Body)
 			return false
+		case *ast.SelectorExpr:
+			if !t.effects {
+				if lk, ok := t.guardedAccess(x); ok {
+					parts = append(parts, t.needFor(lk, x.Pos()))
+				}
+			}
 		case *ast.CallExpr:
 			if k, id, ok := t.syncCall(x); ok {
 				parts = append(parts, fmt.Sprintf("(.%s %d)", k, id))
+				return false
+			} else if !t.effects {
+				if se, ok := x.Fun.(*ast.SelectorExpr); ok {
+					if sel := t.pkg.TypesInfo.Selections[se]; sel != nil {
+						if fn, ok := sel.Obj().(*types.Func); ok && fn.Pkg() != nil {
+							if sig, ok := fn.Type().(*types.Signature); ok && sig.Recv() != nil {
+								full := strings.TrimPrefix(sig.Recv().Type().String(), "*") + "." + fn.Name()
+								if lk, ok := guardedCalls[t.pkg.PkgPath+"|"+full]; ok {
+									parts = append(parts, t.needFor(lk, x.Pos()))
+								}
+								if lk, ok := callerHolds[full]; ok {
+									parts = append(parts, t.needFor(lk, x.Pos()))
+								}
+							}
+						}
+					}
+				}
 			} else if t.effects {
 				if n := t.calleeName(x); n != "" {
 					// arguments first (they are evaluated before the call)
@@ -282,6 +418,11 @@ func (t *tr) stmt(s ast.Stmt, inSwitch bool) string {
 		for _, r := range x.Rhs {
 			parts = append(parts, t.expr(r))
 		}
+		if !t.effects {
+			for _, l := range x.Lhs {
+				parts = append(parts, t.expr(l))
+			}
+		}
 		if t.effects && len(x.Lhs) >= 1 && len(x.Rhs) == 1 {
 			if id, ok := x.Lhs[0].(*ast.Ident); ok {
 				if c, ok := x.Rhs[0].(*ast.CallExpr); ok {
@@ -291,7 +432,12 @@ func (t *tr) stmt(s ast.Stmt, inSwitch bool) string {
 			}
 		}
 		return seq(parts...)
-	case *ast.DeclStmt, *ast.IncDecStmt, *ast.EmptyStmt:
+	case *ast.IncDecStmt:
+		if !t.effects {
+			return t.expr(x.X)
+		}
+		return ".skip"
+	case *ast.DeclStmt, *ast.EmptyStmt:
 		return ".skip"
 	case *ast.SendStmt:
 		return seq(t.expr(x.Chan), t.expr(x.Value))
@@ -361,13 +507,21 @@ func (t *tr) funcUnit(name string, body *ast.BlockStmt) {
 	if body == nil {
 		return
 	}
-	saveName, saveN := t.curName, t.nLit
+	saveName, saveN, saveLocks, saveAssume := t.curName, t.nLit, t.fnLockSites, t.assumeHeld
 	t.nLit++
 	u := &unit{name: name}
 	t.units = append(t.units, u)
 	t.curName, t.nLit = name, 0
+	t.fnLockSites = t.scanLocks(body)
+	t.assumeHeld = ""
+	for full, lk := range callerHolds {
+		// unit names are "pkgname.Recv.Func"; callerHolds keys are "pkgpath.Recv.Func"
+		if strings.HasSuffix(full, "."+strings.SplitN(name, ".", 2)[1]) && strings.HasSuffix(strings.TrimSuffix(full, "."+strings.SplitN(name, ".", 2)[1]), "/"+strings.SplitN(name, ".", 2)[0]) {
+			t.assumeHeld = lk
+		}
+	}
 	u.body = t.block(body.List, false)
-	t.curName, t.nLit = saveName, saveN+1
+	t.curName, t.nLit, t.fnLockSites, t.assumeHeld = saveName, saveN+1, saveLocks, saveAssume
 }
 
 func load(repo string) []*packages.Package {
@@ -578,7 +732,7 @@ func main() {
 	// lock skeletons
 	tl := translate(pkgs, false)
 	emitUnits(filepath.Join(*out, "Locks.lean"), "Locks", tl, func(u *unit) bool {
-		return strings.Contains(u.body, ".acq") || strings.Contains(u.body, ".rel") || strings.Contains(u.body, ".deferRel")
+		return strings.Contains(u.body, ".acq") || strings.Contains(u.body, ".rel") || strings.Contains(u.body, ".deferRel") || strings.Contains(u.body, ".need")
 	}, nil)
 	// effect skeletons of the request handlers
 	te := translate(pkgs, true)
